@@ -10,6 +10,7 @@ mod p_c08;
 mod p_c09;
 mod p_c11;
 mod p_c12;
+mod p_c13;
 mod p_c15;
 mod p_c16;
 mod p_c17;
@@ -109,6 +110,7 @@ fn main() {
                 "C16" => p_c16::generate(seed, tier, &mut sink),
                 "C18" => p_c18::generate(seed, tier, &mut sink),
                 "C17" => p_c17::generate(seed, tier, &mut sink),
+                "C13" => p_c13::generate(seed, tier, &mut sink),
                 "C06" => p_c06::generate(seed, tier, &mut sink),
                 "C19" => p_c19::generate(seed, tier, &mut sink),
                 _ => {
